@@ -56,6 +56,8 @@ SI_BASE = ("kg", "m", "s", "K", "rad", "A", "cd")
 EDIT_KINDS = ("add", "readd", "modify-float", "modify-quantity", "remove", "define_unit")
 PCLASSES = ("atomic", "prefixed", "compound", "prefixed-compound", "pair-compound", "alias", "alias-prefixed")
 RULE_PROBES = ("mul", "sqrt", "div", "add")      # results that come straight out of the lru_cache'd unit rules
+RULE_OF = {"mul": "mul", "mul-to-base": "mul", "mul-inv-base": "mul", "mul-mixed": "mul", "sqrt": "sqrt", "div": "div",
+           "div-base": "div", "div-base2": "div", "add": "add", "add-base": "add", "rsub-base": "add"}
 ACLASSES = ("create", "quantity", "to-base", "to-other", "to_value", "mul", "mul-to-base", "div", "add", "sqrt", "in_base",
             "convert_to_units", "unit-mul", "mul-inv-base", "div-base", "div-base2", "mul-mixed", "add-base", "rsub-base")
 
@@ -345,7 +347,7 @@ class Session:
         pre = self.model.copy()
         kind = edit_kind(op, pre)
         w = apply_real(unyt, self.reg, op)
-        fresh = regmodel.build_registry(unyt, pre)
+        fresh = fresh_registry(unyt, pre)
         f = apply_real(unyt, fresh, op)
         rec.count("edit_calls")
         rec.count("edit:" + kind)
@@ -403,7 +405,7 @@ class Session:
             self.judge_array(sp, ameta[sp["u"]], obs)
         # (2) fresh registry, warm process
         if fresh:
-            fr = regmodel.build_registry(unyt, model)
+            fr = fresh_registry(unyt, model)
             obs_f, _ = observe(unyt, fr, ustrings, aspecs, rnames=rnames)
             self.diff(obs, obs_f, "fresh", ups, ameta)
         # (3) cold process
@@ -615,11 +617,15 @@ class Session:
                 pclass, symbols = "array:" + name, ameta.get(u, ())
             kind, ver = self.edit_of(symbols)
             rec.count("evals_" + which)
-            if o2[0] == "ok" and len(o2) > 4 and o2[4] is False and pclass[6:] in RULE_PROBES:
-                rec.violation(f"C12:result-bound-to-other-registry:{pclass[6:]}",
-                              f"{pclass[6:]} on data created with registry=<{which} registry> returned units whose .registry is the "
-                              f"history's registry (equal contents, so the cached unit rule answered with the unit it built first)",
-                              {"probe": k, which: o2, "prov": self.prov, "log": self.model.log[-12:]})
+            unbound = [x for x in (o, o2) if x[0] == "ok" and len(x) > 4 and x[4] is False]
+            rule = RULE_OF.get(pclass[6:]) if pclass.startswith("array:") else None
+            if unbound and rule and (pclass[6:] in RULE_PROBES or not same_obs(o, o2)):
+                # the result unit belongs to another registry of (then) equal contents; when that registry was edited since,
+                # its table also leaks into how the result is simplified and labelled.  One mechanism, one key per unit rule.
+                rec.violation(f"C12:result-bound-to-other-registry:{rule}",
+                              f"{k}: result units bound to a registry the operands do not belong to (history -> {o}; {which} -> {o2})",
+                              {"probe": k, "warm": o, which: o2, "prov": self.prov, "log": self.model.log[-12:]})
+                continue
             if same_obs(o, o2):
                 rec.ok((which, kind, pclass, self.warmth(k, ver), o[0]))
             else:
@@ -741,7 +747,31 @@ class Session:
 PROVENANCES = ("defaults", "empty+si", "lut-copy", "deepcopy-default")
 
 
-def new_session(unyt, rec, prov, syms, tier, srv):
+_MARKS = itertools.count()
+
+
+def next_mark(prefix="c12mark"):
+    """a symbol name unique in this process.  Every history gets one (added to each of its registries) so that registries of
+    *different* histories never have equal tables: the process-wide unit-rule caches are keyed by the table's hash, and a hit
+    across histories would make one history depend on an unrelated earlier one (finding C12:result-bound-to-other-registry);
+    registries inside one history share the mark, so the effect stays observable where it is the subject."""
+    return f"{prefix}{next(_MARKS)}"
+
+
+def add_mark(unyt, reg, model, mark):
+    reg.add(mark, 1.0, regmodel.dim_expr(unyt, dims.D("L")))
+    model.add(mark, 1.0, "L")
+
+
+def fresh_registry(unyt, model):
+    """fresh registry with the model's contents, under another mark (see next_mark)"""
+    m2 = model.copy()
+    for k in [k for k in m2.contents if k.startswith("c12mark")]:
+        m2.contents[next_mark("c12fresh")] = m2.contents.pop(k)
+    return regmodel.build_registry(unyt, m2)
+
+
+def new_session(unyt, rec, prov, syms, tier, srv, mark=None):
     """a new registry of the given provenance and the model of its contents"""
     if prov == "defaults":
         reg, model = unyt.UnitRegistry(), regmodel.RegModel(defaults=True)
@@ -766,6 +796,8 @@ def new_session(unyt, rec, prov, syms, tier, srv):
             reg = unyt.UnitRegistry(lut=dict(reg.lut), add_default_symbols=False)
     else:
         raise AssertionError(prov)
+    if mark:
+        add_mark(unyt, reg, model, mark)
     return Session(unyt, rec, reg, model, syms, tier, prov, srv)
 
 
@@ -880,9 +912,10 @@ def gen_random_history(r, tier, maxlen):
 # ----------------------------------------------------------------------------------------------------------- worker
 def run_steps(unyt, rec, steps, syms, tier, srv, cold_final, idcheck_always=False):
     sessions = []
+    mark = next_mark()
     for st in steps:
         if st[0] == "new":
-            sessions.append(new_session(unyt, rec, st[1], syms, tier, srv))
+            sessions.append(new_session(unyt, rec, st[1], syms, tier, srv, mark=mark))
             sessions[-1].idcheck_always = idcheck_always
         elif st[0] == "clone":
             try:
@@ -890,7 +923,7 @@ def run_steps(unyt, rec, steps, syms, tier, srv, cold_final, idcheck_always=Fals
                 rec.count("clones:" + st[2])
             except Exception as e:
                 rec.note(f"clone-failed:{st[2]}:{type(e).__name__}")
-                sessions.append(new_session(unyt, rec, "defaults", syms, tier, srv))
+                sessions.append(new_session(unyt, rec, "defaults", syms, tier, srv, mark=mark))
         elif st[0] == "edit":
             sessions[st[1]].edit(tuple(st[2]))
         elif st[0] == "probe":
@@ -997,7 +1030,7 @@ REUSE_STRINGS = (("foo", "atomic"), ("kfoo", "prefixed"), ("foo*s", "compound"),
 # results that are not "the same quantity as the old object": base units (scale 1 by definition), a new Unit built from the
 # old expression against the registry (takes the current value by design), reductions/elements, and pickle round trips
 # (the expression is re-read against the pickled, i.e. current, table: persistence is C11's subject)
-NO_RESULT_CHECK = ("array.sum", "array[0]", "array.to_string-roundtrip", "unit.get_base_equivalent", "unit.get_mks_equivalent",
+NO_RESULT_CHECK = ("array.sum", "array[0]", "unit.get_base_equivalent", "unit.get_mks_equivalent",
                    "Unit(unit)", "pickle(unit)", "pickle(array)")
 
 
@@ -1026,7 +1059,6 @@ def reuse_ops(unyt):
         "np.sqrt(array*array)": ("x", lambda x: np.sqrt(x * x)),
         "array[0]": ("x", lambda x: x[0]),
         "array.sum": ("x", lambda x: x.sum()),
-        "array.to_string-roundtrip": ("x", lambda x: unyt.unyt_quantity.from_string(str(x[0]), registry=x.units.registry) if hasattr(unyt.unyt_quantity, "from_string") else None),
         "pickle(array)": ("x", lambda x: pickle.loads(pickle.dumps(x))),
         "base-units-array.in_base": ("b", lambda b: b.in_base("mks")),
     }
@@ -1035,7 +1067,7 @@ def reuse_ops(unyt):
 REUSE_OP_NAMES = ("unit.copy", "copy.copy(unit)", "copy.deepcopy(unit)", "unit.get_base_equivalent", "unit.get_mks_equivalent",
                   "unit*unit", "unit**2", "unit.simplify", "Unit(unit)", "pickle(unit)", "array.copy", "copy.deepcopy(array)",
                   "array.in_base", "array.in_cgs", "array.to(own units)", "array.to(str(units))", "array*array", "array+array",
-                  "np.sqrt(array*array)", "array[0]", "array.sum", "array.to_string-roundtrip", "pickle(array)",
+                  "np.sqrt(array*array)", "array[0]", "array.sum", "pickle(array)",
                   "base-units-array.in_base")
 
 
@@ -1050,6 +1082,7 @@ def run_reuse(unyt, rec, tier):
             for state in ("cache-cleared", "cache-refilled"):
                 for opname, (which, fn) in ops.items():
                     reg, model = unyt.UnitRegistry(), regmodel.RegModel(defaults=True)
+                    add_mark(unyt, reg, model, next_mark())
                     first = ("add", "foo", 2.0, "L", True, 0.0)
                     assert apply_real(unyt, reg, first) == "ok" and model.apply(first) == "ok"
                     old = model.outcome(ustr)
